@@ -28,7 +28,7 @@ for sid in sorted(fp):
     elif m.get("caught_by"):
         key = "(by the check of %s: `%s`)" % (m["caught_by"]["check"], m["caught_by"]["keys"][0])
     else:
-        keys = c.get("keys") or c.get("check_keys") or []
+        keys = c.get("check_violation_keys") or c.get("keys") or c.get("check_keys") or []
         key = "`%s`" % keys[0] if keys and c.get("check_exit") == 1 else "MISSED"
     def cl(s, n):
         return " ".join(str(s).replace("|", "/").split())[:n]
